@@ -354,3 +354,26 @@ REG.lemma(
     props=["C06"],
     note="the reported relation and common-label count agree with the subdomain/superdomain predicates",
 )
+
+# ----------------------------------------------------------------------------- C01-P6 / C15: uncompressed wire form
+_ISABS_O = "(len(origin.labels) > 0 and origin.labels[len(origin.labels) - 1] == b'')"
+REG.contract(
+    "dns.name.Name.to_wire",
+    params={"self": NAME, "file": T.const(None), "compress": T.const(None), "origin": T.opt(NAME), "canonicalize": T.bool},
+    raises=[("dns.name.NeedAbsoluteNameOrOrigin", f"(not {ISABS('self')}) and (origin is None or not {_ISABS_O})"),
+            ("dns.name.NameTooLong", f"(not {ISABS('self')}) and origin is not None", "may")],
+    returns=T.bytes,
+    loops={
+        0: loop(index="i0", invariant=["out == wenc(self.labels, i0, canonicalize)"]),
+        1: loop(index="i1", invariant=["out == wenc(self.labels, len(self.labels), canonicalize) + wenc(origin.labels, i1, canonicalize)"]),
+    },
+    ensures=[
+        f"(not {ISABS('self')}) or result == wenc(self.labels, len(self.labels), canonicalize)",
+        f"{ISABS('self')} or origin is None or result == wenc(self.labels, len(self.labels), canonicalize) + wenc(origin.labels, len(origin.labels), canonicalize)",
+        f"{ISABS('self')} or len(result) <= 255",
+    ],
+    props=["C01", "C15"],
+    note="file=None form (used by to_digestable): the result is exactly the RFC 1035 encoding of the labels (then the origin's "
+         "labels for a relative name), lower-cased iff canonicalize, never a compression pointer; NeedAbsoluteNameOrOrigin "
+         "exactly when relative without an absolute origin",
+)
